@@ -819,3 +819,22 @@ func sortStrings(s []string) {
 		}
 	}
 }
+
+// FactsPerPred: for a join block, the facts that hold on each incoming edge
+// (facts dominating the predecessor plus the predecessor's own branch edge).
+func FactsPerPred(b *ssa.BasicBlock) [][]Fact {
+	var out [][]Fact
+	for _, p := range b.Preds {
+		fs := DomFacts(p)
+		if len(p.Instrs) > 0 {
+			if iff, ok := p.Instrs[len(p.Instrs)-1].(*ssa.If); ok && p.Succs[0] != p.Succs[1] {
+				f := factOf(iff.Cond, p.Succs[0] == b)
+				f.If = iff
+				f.Block = p
+				fs = append(fs, f)
+			}
+		}
+		out = append(out, fs)
+	}
+	return out
+}
